@@ -753,8 +753,8 @@ Section Conv.
     end.
 
   Definition convert_array (t : tree) (kids : list bundle) (c : ctx) : M doc :=
-    let c := with_mode c LCodeCont in
     let is_explicit := match kids with b :: _ => kind_eqb (bk b) KLeftParen | [] => false end in
+    let c := if is_explicit then with_mode c LCodeCont else c in
     let ends_with_comma := negb is_explicit &&
                            match rev kids with b :: _ => kind_eqb (bk b) KComma | [] => false end in
     l <- lst_process (lst_with_fold_style lst_new (get_fold_style c t)) c kids
